@@ -337,6 +337,38 @@ var ffTampers = []tamperFn{
 			}
 		}
 	}},
+	{"sigs-undersigned-padded", true, func(b *hg.Block, f *hg.Frame, _ *member, cl *cluster, rng *rand.Rand) {
+		// at most TrustCount verifying signatures; the other members' entries are replayed from
+		// another body or garbage, so that the number of member entries exceeds TrustCount
+		ps := peers.NewPeerSet(f.Peers)
+		other := *b
+		other.Body.StateHash = append(append([]byte{}, b.Body.StateHash...), 7)
+		ks := []string{}
+		for k := range b.Signatures {
+			ks = append(ks, k)
+		}
+		sort.Strings(ks)
+		keep := map[string]bool{}
+		for i, k := range ks {
+			if i < ps.TrustCount() {
+				keep[k] = true
+			}
+		}
+		if len(keep) == 0 && len(ks) > 0 {
+			keep[ks[0]] = true // TrustCount = 0 (single validator): nothing can be under-signed
+		}
+		for _, m := range cl.members {
+			if _, member := ps.ByPubKey[m.hex]; !member || keep[m.hex] {
+				continue
+			}
+			if rng.Intn(2) == 0 {
+				sig, _ := other.Sign(m.key)
+				b.Signatures[m.hex] = sig.Signature
+			} else {
+				b.Signatures[m.hex] = "1a|2b"
+			}
+		}
+	}},
 	{"sigs-one-signer-reencoded", true, func(b *hg.Block, f *hg.Frame, _ *member, _ *cluster, _ *rand.Rand) {
 		// a single signer presented under several map keys decoding to the same bytes
 		ks := []string{}
@@ -370,7 +402,7 @@ var ffTampers = []tamperFn{
 
 func runFF(r *Result, thorough bool, prop string) {
 	if prop == "C12" {
-		r.Rule = "valid (block, frame) pairs harvested from honest G2 runs (3-5 validators, optional join), every block-body field, frame field (peers, events, roots, peer sets), and signature-map shape (under-signed, one signer under re-encoded keys, stranger, other body, garbage) tampered, applied to fresh cores; " +
+		r.Rule = "valid (block, frame) pairs harvested from honest G2 runs (3-5 validators, optional join), every block-body field, frame field (peers, events, roots, peer sets), and signature-map shape (under-signed, under-signed but padded with replayed or garbage entries of other members, one signer under re-encoded keys, stranger, other body, garbage) tampered, applied to fresh cores; " +
 			"accept/refuse compared with the Lean model of core.fastForward; oracle: accepted => the three conditions recomputed independently with distinct signers, refused => digest (events, blocks, peer sets, head, application) unchanged; node level: a hostile serving peer in front of the real Node.fastForward (application restore counted). " +
 			"non-trivial: triple obtained from a run and exactly one field changed"
 	} else {
